@@ -97,6 +97,18 @@ def apply_op(ctx, st, op, case):
         elif name == 'new_key_change':
             if not st.single:
                 w.new_key_change()
+        elif name == 'new_account':
+            # a second (third) account with a key of its own; utxo_add may fund it like any other key
+            if not st.single and case['wallet']['kind'] == 'hd' and len(getattr(st, 'accounts', [0])) < 3:
+                a = w.new_account()
+                if not hasattr(st, 'accounts'):
+                    st.accounts = [0]
+                st.accounts.append(a.account_id)
+                # funded through the provider for THAT account (utxo_add has no account argument and files what it
+                # adds under the default account)
+                w.new_key(account_id=a.account_id)
+                w.utxos_update(account_id=a.account_id)
+                st.flags.add('multi_account')
         elif name == 'get_key':
             k = w.get_key()
             if k.address not in [x.address for x in st.keys]:
@@ -208,8 +220,13 @@ def check_invariants(ctx, st, case, step):
         raise Discrepancy(bucket, '%s (after step %d: %r)' % (msg, step, case['ops'][step] if step >= 0 else None),
                           case)
 
+    accounts = getattr(st, 'accounts', [0])
+
     def numbers(w):
-        us = w.utxos()
+        # all accounts: the unspent outputs of every account, the per-key balances of every key
+        us = []
+        for a in accounts:
+            us += w.utxos(account_id=a)
         bal = w.balance()
         ks = w.keys()
         per_key = sum(k.balance for k in ks)
@@ -218,11 +235,19 @@ def check_invariants(ctx, st, case, step):
 
     try:
         us, bal, per_key, per_key2 = numbers(st.w)
+        default_total = sum(u['value'] for u in st.w.utxos())
+        per_account = [(a, st.w.balance(account_id=a), sum(u['value'] for u in st.w.utxos(account_id=a)))
+                       for a in accounts] if len(accounts) > 1 else []
+        bal_again = st.w.balance()
     except Exception as e:
         bad('observe.raises', 'reading balance/utxos/keys raised %r' % e)
     total = sum(u['value'] for u in us)
-    if bal != total:
-        bad('I1.balance_vs_utxos', 'balance() %r != sum(utxos()) %r' % (bal, total))
+    if bal != default_total or bal_again != default_total:
+        bad('I1.balance_vs_utxos', 'balance() %r (again: %r) != sum(utxos()) %r of the default account%s' %
+            (bal, bal_again, default_total, '' if len(accounts) == 1 else ' (accounts %r)' % accounts))
+    for a, b_a, u_a in per_account:
+        if b_a != u_a:
+            bad('I1.account_balance', 'balance(account_id=%d) %r != sum(utxos(account_id=%d)) %r' % (a, b_a, a, u_a))
     if per_key != total:
         ctx.disc('I2.keys_balance', 'sum(keys()[*].balance) %r != sum(utxos()) %r (after step %d: %r)' %
                  (per_key, total, step, case['ops'][step] if step >= 0 else None), case,
@@ -271,7 +296,7 @@ def check_invariants(ctx, st, case, step):
         if sorted((u['txid'], u['output_n'], u['value']) for u in us2) != \
                 sorted((u['txid'], u['output_n'], u['value']) for u in us):
             bad('I5.utxos', 'second reader lists different utxos')
-        if bal2 != bal or pk2 != total or pk22 != total:
+        if bal2 != default_total or pk2 != total or pk22 != total:
             bad('I5.numbers', 'second reader: balance %r, key sums %r/%r; first object: %r/%r' %
                 (bal2, pk2, pk22, bal, total))
 
@@ -346,6 +371,7 @@ def _strategy(ctx):
                                    medium=st.sampled_from(['object', 'dict', 'raw']))),
         st.fixed_dictionaries({'op': st.just('delete'), 'key': st.integers(0, 5)}),
         st.fixed_dictionaries({'op': st.just('delete_funding'), 'pick': st.integers(0, 5)}),
+        st.just({'op': 'new_account'}),
         st.just({'op': 'reopen'}), st.just({'op': 'second_reader'}),
     )
     wallet = st.fixed_dictionaries({
@@ -367,7 +393,13 @@ def _strategy(ctx):
                         st.fixed_dictionaries({'op': st.just('delete'), 'key': st.integers(0, 5),
                                                'last': st.integers(0, 2)})).map(lambda t: [t[0]] + t[1] + [t[2]])
     tail = st.lists(st.one_of(op, op, op, spend_out), min_size=3, max_size=ctx.scale(22, 45))
+    # directed prefix: a second account is funded BETWEEN two funded keys of the first one (key -1 = newest key)
+    add_last = st.fixed_dictionaries({'op': st.just('utxo_add'), 'key': st.just(-1), 'value': value,
+                                      'n': st.integers(0, 2), 'conf': st.sampled_from([1, 6])})
+    accounts = st.tuples(add_last, add_last).map(
+        lambda t: [{'op': 'new_account'}, {'op': 'new_key'}, t[0], {'op': 'new_account'}, {'op': 'new_key'}, t[1]])
     ops = st.one_of(
+        st.tuples(st.lists(fund, min_size=1, max_size=2), accounts, tail).map(lambda t: t[0] + t[1] + t[2]),
         st.tuples(st.lists(fund, min_size=1, max_size=3), tail).map(lambda t: t[0] + t[1]),
         st.tuples(st.lists(fund, min_size=1, max_size=2), sibling, tail).map(lambda t: t[0] + t[1] + t[2]))
     return st.fixed_dictionaries({'kind': st.just('history'), 'wallet': wallet, 'ops': ops,
